@@ -10,6 +10,8 @@
           25 = C08_identity: clusters = templates but cluster waveforms <> template waveforms or n_clusters <> n_templates
           26 = C08_mean_fn: get_cluster_mean_waveforms(c, unwhiten) (both routes) is not that mean on the channels of a
                dominant template (columns compared per channel; the order of channel_ids is not observed)
+          27 = C08_merge_map_loaded: clusters <> templates but n_clusters or the number of cluster waveforms is not the
+               number of ids 0..max
           3  = input outside the stated regime (harness bug)
    The single binary64 division of np.average is reproduced with PrimFloat on the exact operands. *)
 From Coq Require Import ZArith List Bool Arith.
@@ -79,23 +81,6 @@ Definition in_regime (d : dset) : bool :=
   forallb (forallb (forallb (fun v => Z.abs v <=? 1024))) (d_tmpl d) &&
   forallb (forallb (fun v => Z.abs v <=? 64)) (d_wmi d) &&
   boundary_ok d.
-
-(* ---------- the specification's waveforms with the per-template tables computed once ---------- *)
-Record tables := mktab { tb_w : list Z; tb_ch : list (list Z); tb_tm : list (list (list Z)) }.
-Definition tables_of (d : dset) (unw : bool) (c : Z) : tables :=
-  let ts := seq 0 (length (d_tmpl d)) in
-  mktab (map (fun t => cnt d c (Z.of_nat t)) ts) (map (chans_of d unw) ts) (map (tmpl_of d unw) ts).
-Fixpoint wsum3 (ws : list Z) (chs : list (list Z)) (tms : list (list (list Z))) (s : nat) (k : Z) : Z :=
-  match ws, chs, tms with
-  | w :: ws', ch :: chs', tm :: tms' => w * (if memZ k ch then cell tm s k else 0) + wsum3 ws' chs' tms' s k
-  | _, _, _ => 0
-  end.
-Definition wnum_f (tb : tables) (s : nat) (k : Z) : Z := wsum3 (tb_w tb) (tb_ch tb) (tb_tm tb) s k.
-Definition mean_rows_f (d : dset) (c : Z) (tbl : tables) (tbchans : list Z) : list (list rat) :=
-  let den := zsum (tb_w tbl) in
-  map (fun s => map (fun k => if memZ k tbchans then mkrat (wnum_f tbl s k) den else rat_of 0)
-                    (zrange 0 (n_channels d)))
-      (seq 0 (n_samples_wf d)).
 
 (* ---------- clauses ---------- *)
 Definition keys_of (d : dset) : list Z :=
@@ -182,7 +167,9 @@ Definition check (c : case) : list Z :=
                 forallb (model_mean_b d false) (o_mean_w o) && forallb (model_mean_b d true) (o_mean_u o) in
       let cur := l_curated m in
       flag 1 g1 ++
-      (if cur then flag 21 (mm_b (d_st d) (d_sc d) (o_mm o)) ++ flag 22 (nan_b (d_sc d) (o_nan o)) else []) ++
+      (if cur then flag 21 (mm_b (d_st d) (d_sc d) (o_mm o)) ++ flag 22 (nan_b (d_sc d) (o_nan o)) ++
+                   flag 27 ((o_ncl o =? zlen (o_mm o)) && (length (o_data o) =? length (o_mm o))%nat)
+       else []) ++
       flag 23 (single_b d (o_data o)) ++
       flag 24 (mean_b d (o_data o)) ++
       (if cur then [] else flag 25 (identity_b d o)) ++
